@@ -11,6 +11,9 @@ pub struct Group {
     /// number of new-side lines before this group: the group sits in the gap between new lines
     /// `gap` and `gap + 1` (for a pure deletion that is where the deletion happened)
     pub gap: usize,
+    /// git printed `\ No newline at end of file` after the last removed line of this group: the old file's last
+    /// line had no terminator (an added line with the same text differs from it in the terminator only)
+    pub old_eof_marker: bool,
 }
 
 impl Group {
@@ -110,7 +113,15 @@ pub fn parse(diff: &str) -> Result<Vec<FileDiff>, String> {
                 i += 1;
                 let (tag, text) = match b.chars().next() {
                     Some(c @ ('+' | '-' | ' ')) => (c, &b[1..]),
-                    Some('\\') => continue, // "\ No newline at end of file"
+                    Some('\\') => {
+                        // "\ No newline at end of file"
+                        if let Some(g) = group.as_mut()
+                            && g.added.is_empty()
+                        {
+                            g.old_eof_marker = true;
+                        }
+                        continue;
+                    }
                     None => (' ', ""),     // an empty context line whose trailing space was stripped
                     Some(c) => return Err(format!("unexpected hunk body line starting with {c:?}: {b:?}")),
                 };
@@ -129,13 +140,13 @@ pub fn parse(diff: &str) -> Result<Vec<FileDiff>, String> {
                         if group.as_ref().is_some_and(|g| !g.added.is_empty()) {
                             cur.groups.push(group.take().unwrap());
                         }
-                        let g = group.get_or_insert_with(|| Group { removed: vec![], added: vec![], gap: new_no - 1 });
+                        let g = group.get_or_insert_with(|| Group { removed: vec![], added: vec![], gap: new_no - 1, old_eof_marker: false });
                         g.removed.push((old_no, text.to_string()));
                         old_no += 1;
                         oc += 1;
                     }
                     _ => {
-                        let g = group.get_or_insert_with(|| Group { removed: vec![], added: vec![], gap: new_no - 1 });
+                        let g = group.get_or_insert_with(|| Group { removed: vec![], added: vec![], gap: new_no - 1, old_eof_marker: false });
                         g.added.push((new_no, text.to_string()));
                         new_no += 1;
                         nc += 1;
